@@ -71,7 +71,7 @@ def gen_merge(ck):
             src = list(range(nsrc))
             tgt = list(range(100, 100 + k))
             for _ in range(reps):
-                L = rng.choice([2, 3, 5])
+                L = rng.choice([1, 2, 3, 5])      # one-entry files too: a single observable per run is an array content like any other
                 base = {i: arr(rng, L) for i in src}
                 base[200] = arr(rng, rng.choice([2, 4]))          # a bystander file
                 # all subsets of pre-existing targets
@@ -294,10 +294,9 @@ def main(argv):
                   "model coq/Model/Batch.v is hand-written: tied to simulations_utility only by correspondence",
                   "library behaviour as premises of the runner theorems: Pool.imap_unordered (>=1 process, chunksize>=1) yields func on a "
                   "permutation of the iterable; ProcessPoolExecutor runs every submitted call once and map yields results in order",
-                  "np.loadtxt/np.savetxt round-trip 1-d float arrays with >= 2 entries exactly; os.path.isfile = 'path holds a file'",
+                  "np.loadtxt/np.savetxt round-trip 1-d float arrays exactly (a one-entry file loads as a 0-d array, handled by the code since fix 13 of /repo); os.path.isfile = 'path holds a file'",
                   "paths are abstract identifiers: two different strings name two different files"]
-    ck.assume = ["result files are 1-d arrays with >= 2 entries (a one-entry file loads as a 0-d array that np.savetxt rejects)",
-                 "target paths are pairwise distinct (the code does not check this; with a repeated target the later group wins)",
+    ck.assume = ["target paths are pairwise distinct (the code does not check this; with a repeated target the later group wins)",
                  "real process scheduling is sampled, not enumerated: the theorem quantifies over every order via pool_order/exec_order",
                  "correspondence uses integer contents with exact means; float rounding of the sum/division is the entry type's vadd/vdiv"]
 
